@@ -14,7 +14,7 @@ import json
 from harness import common, tlc, runner, peers
 from checks import rating
 
-INVS = ['PolicyNamesKnown', 'ProbeTableKnown', 'RsaFamilyProbed', 'DheatTablesKnown', 'HardeningPoliciesClean', 'PolicySizesSane', 'PolicySizesNotFailing', 'ShapeOk', 'BrokenPrimitivesFail',
+INVS = ['PolicyNamesKnown', 'ProbeTableKnown', 'Ssh1NamesKnown', 'RsaFamilyProbed', 'DheatTablesKnown', 'HardeningPoliciesClean', 'PolicySizesSane', 'PolicySizesNotFailing', 'ShapeOk', 'BrokenPrimitivesFail',
         'NamesCarryVersion']
 
 
@@ -90,6 +90,7 @@ def run(tier):
         else:
             ck.cov['traces_validated_against_impl'] += 1
     listing_leg(ck, tj)
+    measured_leg(ck, tb)
     ck.sample({'invariants': INVS, 'entries': covered['entries'], 'matched_by_broken_primitive_rule': covered['covered'], 'policies': covered['policies']})
     ck.cov['rule'] = ('all entries of both rating databases, all built-in policies, the probe table and the DH tables of the working tree (exhaustive); distinct = database '
                       'entries + policies; plus one standard audit per built-in server policy')
@@ -97,6 +98,44 @@ def run(tier):
     ck.assumptions += ['the broken-primitive rule is applied to the SSH-2 database (the SSH-1 table rates the protocol as a whole)',
                        'TLC is a quantifier engine over extracted data here; the extractor is trusted to copy the tables']
     return ck.finish()
+
+
+def measured_leg(ck, tb):
+    """The rating database is also written to at run time: the probes add what they measure (key and modulus sizes) to the entries
+    of the worker's copy.  What the static tables brand as broken stays branded in the report whatever was measured: an algorithm
+    whose table entry carries a failure is shown with at least one failure for every measurable size."""
+    db = tb['db2']
+    cases = []
+    cid = 9000
+    for bits in (1024, 2048, 3072, 4096, 8192):
+        for kex in (['diffie-hellman-group-exchange-sha1', 'diffie-hellman-group-exchange-sha256', 'curve25519-sha256'],
+                    ['curve25519-sha256', 'diffie-hellman-group-exchange-sha1']):
+            cid += 1
+            cases.append(rating.mk_case(cid, kex=kex, key=['ssh-ed25519'], enc=['aes256-ctr'], mac=['hmac-sha2-256'], dh={k: (bits, False) for k in kex if 'group-exchange' in k}))
+        cid += 1
+        cases.append(rating.mk_case(cid, kex=['curve25519-sha256'], key=['ssh-rsa', 'rsa-sha2-256', 'ssh-dss', 'ssh-ed25519'], enc=['aes256-ctr', '3des-cbc'], mac=['hmac-sha1', 'hmac-sha2-256'],
+                                    hk={'ssh-rsa': (bits, '', 0), 'rsa-sha2-256': (bits, '', 0), 'ssh-dss': (1024, '', 0)}))
+        cid += 1
+        cases.append(rating.mk_case(cid, kex=['curve25519-sha256'], key=['ssh-rsa-cert-v01@openssh.com', 'ssh-ed25519'], enc=['aes256-ctr'], mac=['hmac-sha2-256'],
+                                    hk={'ssh-rsa-cert-v01@openssh.com': (bits, 'ssh-rsa', bits)}))
+    scs = [rating.scenario(c, 'json') for c in cases]
+    for c, sc, r in zip(cases, scs, runner.run_many(scs)):
+        ck.evaluated()
+        if r.get('harness_error') or r.get('hang') or r.get('exit') not in (0, 2, 3):
+            raise common.Machinery('audit of a measured peer failed: exit %r %s' % (r.get('exit'), r.get('harness_error') or ''))
+        doc = json.loads(r['stdout'])
+        lost = []
+        for cat in ('kex', 'key', 'enc', 'mac'):
+            for a in doc.get(cat, []):
+                n = a.get('algorithm')
+                if n in db[cat] and db[cat][n]['fail'] and not (a.get('notes') or {}).get('fail'):
+                    lost.append('%s:%s%s' % (cat, n, (' (%s-bit)' % a['keysize']) if a.get('keysize') else ''))
+        if lost:
+            ck.violation('branded-entry-shown-without-failure', 'after its sizes were measured, %s - branded as a failure by the table - is shown without any failure' % ', '.join(lost),
+                         {'case': c, 'argv': sc['argv'], 'exit': r['exit'], 'stdout': r['stdout'][-3000:], 'table_fail': {x: db[x.split(':')[0]][x.split(':')[1].split(' ')[0]]['fail'] for x in lost}})
+        else:
+            ck.cov['traces_validated_against_impl'] += 1
+            ck.nontrivial(('measured', c['id']))
 
 
 def witness(inv, tb):
@@ -123,6 +162,8 @@ def witness(inv, tb):
                     if n in db[cat] and db[cat][n]['fail']:
                         out.append('%s -> %s:%s' % (p, cat, n))
         return out[:10]
+    if inv == 'Ssh1NamesKnown':
+        return ['enc:%s' % n for n in tb['ssh1_names']['ciphers'] if n not in tb['db1']['enc']] + ['aut:%s' % n for n in tb['ssh1_names']['auths'] if n not in tb['db1']['aut']]
     if inv in ('PolicyNamesKnown', 'ProbeTableKnown', 'DheatTablesKnown'):
         out = []
         for p, pol in tb['policies'].items():
